@@ -5,6 +5,64 @@ from ..families import dagiter, f0
 from .. import simcheck
 
 
+def wide(m):
+    """m branches r_i -> m_i -> J on the real lifecycle object; plus a chain of m operators: the dependency gate and the ready
+    filter at every stage (sizes follow the constants of the lifecycle sources, mc/scale.py)"""
+    from ..families.f0 import OS
+    from ..refmodel import P, A, R, C, F
+    from .. import boot
+    boot.fresh_execution()
+    from eudoxia.workload.pipeline import Pipeline, Segment
+    from eudoxia.utils import Priority
+    viol = []
+    pl = Pipeline("wide", Priority.BATCH_PIPELINE)
+    mk = lambda pars: (lambda o: (o.add_segment(Segment(baseline_cpu_seconds=1, storage_read_gb=0)), o)[1])(pl.new_operator(pars or None))
+    roots = [mk([]) for _ in range(m)]
+    mids = [mk([r]) for r in roots]
+    join = mk(list(mids))
+    st = pl.runtime_status()
+    what = dict(fan_in=m, what="wide-join")
+
+    def go(op, *targets):
+        for t in targets:
+            op.transition(OS[t])
+
+    def gate(stage, expect_ok):
+        if join.state().value in (P, F):
+            ready = st.get_ops([OS[P], OS[F]], require_parents_complete=True)
+            if (join in ready) != expect_ok:
+                viol.append(("ready-filter", f"fan-in {m}, {stage}: the join is {'listed' if join in ready else 'not listed'} as ready", what))
+        ok = True
+        try:
+            if join.state().value == P:
+                go(join, A)      # handing it to a container is legal at any time; starting it is what is gated
+            try:
+                go(join, R)
+            except Exception:
+                ok = False
+        except Exception:
+            ok = None
+        if ok is not None and ok != expect_ok:
+            viol.append(("inadmissible-start-accepted" if ok else "admissible-start-refused", f"fan-in {m}, {stage}: starting the join was {'accepted' if ok else 'refused'}", what))
+        return ok
+    for r in roots:
+        go(r, A, R, C)
+    if gate("all roots completed, no middle operator started", False):
+        return viol
+    for x in mids[:-1]:
+        go(x, A, R, C)
+    if gate("all but one parent completed", False):
+        return viol
+    go(mids[-1], A, R, C)
+    gate("all parents completed", True)
+    # iteration order of the whole DAG: parents first, each node once
+    order = list(pl.values)
+    pos = {o: i for i, o in enumerate(order)}
+    if len(order) != 2 * m + 1 or len(pos) != len(order) or any(pos[q] > pos[o] for o in order for q in o.parents):
+        viol.append(("iteration-order", f"fan-in {m}: iteration is not a parents-first permutation of the {2 * m + 1} operators ({len(order)} returned)", what))
+    return viol
+
+
 def main(tier, seed):
     fams = ["F1", "F5:dag:naive,dag:starter,dag:overbook,dag:priority,dag:priority-pool"]
     rep = simcheck.Report("C01", tier, seed)
@@ -24,12 +82,24 @@ def main(tier, seed):
     rep.add_states({("dag", str(d)) for d in ds})
     rep.part("DAG", dags=len(ds), max_nodes=n)
     rep.sample(dict(family="DAG", parents=ds[len(ds) // 2]))
+    from .. import scale as _scale
+    m, sinfo = _scale.size(["workload/runtime_status", "workload/pipeline", "utils/dag"], 24, 6000)
+    for mm_ in sorted({3, m // 2, m}):
+        for kind, d, what in wide(mm_):
+            rep.add_violations([Violation("wide-join", kind, d, what, [], family="WIDE")])
+        rep.cov["evaluations"] += 1
+    rep.part("wide-join", fan_in=m, sizing=sinfo)
     simcheck.run_f1(rep, "C01", tier)
     simcheck.run_f5(rep, "C01", tier, ["dag:naive", "dag:starter", "dag:overbook", "dag:priority", "dag:priority-pool"], seed)
     return rep.finish()
 
 
 def replay(rec):
+    if rec.get("family") == "WIDE":
+        v = wide(rec["scenario"]["fan_in"])
+        for x in v:
+            print("PROBLEM", x[:2])
+        return 1 if v else 0
     if rec.get("family") == "DAG":
         probs, order = dagiter.check_dag(rec["scenario"]["parents"])
         print("parents:", rec["scenario"]["parents"], "iteration order:", order)
